@@ -225,14 +225,14 @@ def run(pid, tier, seed, replay=None):
         execs, status = [rerun(key["exec"])], {}
     else:
         tdir = os.path.join(vlib.BUILD, "traces")
-        nseeds = 4 if quick else 40
+        nseeds = 4 if quick else 60
         execs, status = record([params_str(c) for c in FIXED], (seed * 1000 + 1, seed * 1000 + 1 + nseeds), "mix", os.path.join(tdir, pid + "_fixed"))
-        rcfgs = [gen_config(rng) for _ in range(20 if quick else 200)]
+        rcfgs = [gen_config(rng) for _ in range(20 if quick else 300)]
         e2, s2 = record(rcfgs, (seed * 1000 + 1, seed * 1000 + (3 if quick else 5)), "mix", os.path.join(tdir, pid + "_rand"), jobs=4)
         execs += e2
         lap("record")
         e3, s3 = record([params_str(c) for c in (PB[:3] if quick else PB)], (1, 2), "pb", os.path.join(tdir, pid + "_pb"),
-                        extra=["--pb-bound", "2" if quick else "3", "--max-execs", "40" if quick else "2000"])
+                        extra=["--pb-bound", "2" if quick else "3", "--max-execs", "40" if quick else "150"])
         execs += e3
         lap("record_pb")
         # spec -> code: TLC-generated behaviours of the L2 model replayed step by step into the real containers
